@@ -243,6 +243,26 @@ fn inject(rng: &mut Rng, p: &Project, tree: &mut BTreeMap<String, String>, kind:
             tree.insert(f.clone(), lines.join("\n"));
             Some(Injected { file: f, kind: kind.into(), stage: 4 })
         }
+        "duplicate_type" => {
+            // an object type is declared a second time, in another schema file
+            if p.introspection() || schema_files.len() < 2 {
+                return None;
+            }
+            let roots = [Some(p.schema.query.clone()), p.schema.mutation.clone(), p.schema.subscription.clone()];
+            let cands: Vec<&crate::model::TypeDef> = p.schema.types.iter().filter(|t| t.kind == crate::model::Kind::Object && !roots.contains(&Some(t.name.clone()))).collect();
+            if cands.is_empty() || tree.values().any(|t| t.contains("zzDup")) {
+                return None;
+            }
+            let t = *rng.pick(&cands);
+            let def_file = p.schema_abs(t.file);
+            let others: Vec<&String> = schema_files.iter().filter(|f| **f != def_file).collect();
+            let dup_file = (*rng.pick(&others)).clone();
+            let text = format!("{}\n\ntype {} {{\n  zzDup: Int\n}}\n", tree[&dup_file].trim_end(), t.name);
+            tree.insert(dup_file.clone(), text);
+            // the error is reported at one of the two declarations (the one met first)
+            let first = std::cmp::min(def_file, dup_file);
+            Some(Injected { file: first, kind: kind.into(), stage: 2 })
+        }
         "directive_cycle" => {
             // two directive definitions that use each other on their arguments, and a third one
             // outside the cycle that uses a member of it: rejected by `check` (schema stage)
@@ -375,6 +395,7 @@ const VIOLATION_KINDS: &[&str] = &[
     "unknown_field_nested",
     "unknown_type",
     "directive_cycle",
+    "duplicate_type",
     "dup_operation",
     "dangling_import",
     "missing_import_name",
@@ -446,6 +467,11 @@ pub fn gen_scenario(run_seed: u64, variant: &str, tier: Tier) -> E2Scenario {
             } else {
                 kind
             };
+            // (a type declared twice is refused when the extensions are resolved, before any other
+            // schema rule is looked at: it stays the only violation of its project)
+            if (kind == "duplicate_type" && !injected.is_empty()) || injected.iter().any(|i: &Injected| i.kind == "duplicate_type") {
+                continue;
+            }
             let mut extra = Vec::new();
             if let Some(i) = inject(&mut rv, &project, &mut tree, kind, &mut extra) {
                 injected.push(i);
@@ -1746,6 +1772,29 @@ fn drive_c17(sc: &E2Scenario, rep: &mut RunReport) {
                         format!("crash at tree call {k} ({action}), then a clean run: exit {} files differing {:?}", r3.exit, changed_paths(&gtree, &after3)),
                     );
                 }
+            }
+        }
+    } else if g.exit == 1 && !g.trapped() {
+        // a project that `check` rejects stays rejected when its schema files load in reverse order
+        let p = &sc.project;
+        let sin = sc.schema_inputs();
+        let by_glob = sin.len() >= 2 && !p.introspection() && sin.iter().all(|f| !p.config.schema_globs.iter().any(|g| g.contains(indep::basename(f))));
+        if by_glob {
+            let mut sorted = sin.clone();
+            sorted.sort();
+            let n = sorted.len();
+            let mut t2 = tree0.clone();
+            for (i, f) in sorted.iter().enumerate() {
+                let b = t2.remove(f).unwrap();
+                t2.insert(format!("{}/r{}-{}", indep::dirname(f), n - i, indep::basename(f)), b);
+            }
+            sandbox::reset_tree(&t2);
+            let (r5, _) = rn.on_tree(cmds, "json", sc.hash_seeds[0], Some(sc.readdir_seeds[0]), &[]);
+            rep.probe("rejected_project_with_schema_files_in_reverse_order");
+            if r5.trapped() {
+                rep.violate(&["C17", "C18", "C08"], &format!("trap@{}", r5.panic_site()), format!("schema files renamed: exit {} {}", r5.exit, tail(&r5.stderr_str())));
+            } else if r5.exit != g.exit {
+                rep.violate(&["C17"], "C17.5-file-order-changes-verdict", format!("a project that check rejects is accepted (exit {}) when its schema files are renamed so that they load in reverse order", r5.exit));
             }
         }
     }
